@@ -62,3 +62,28 @@ Example C04_monitor_rejects_gated_target :
   mon_C04 (mkCase f3_cfg (Some 1) 103200 f3_ins false (mkP true true) f3_links
                   (fst (handle false f3_cfg (Some 1) 103200 f3_ins false (mkP true true) f3_links)) (Some 0)) = 1%N.
 Proof. vm_compute. reflexivity. Qed.
+
+(** Fault histories (link dies, is soft-reset, re-connects, re-registers) with a flush tick in
+    between: in the abstract queue model — a reset empties the link's coalescing queue, the
+    scheduler's choice is a connected link — no link ever puts stream data on the wire while it is
+    down.  The same clause ([mon_fault], clause 5) is evaluated on the implementation's fault traces
+    captured on real sockets. *)
+Theorem C04_fault_model_holds : forall s ops, finv s -> fops_wf s ops -> mon_fault (ftrace s ops) = 0%N.
+Proof. exact fault_model_monitor. Qed.
+
+(** non-vacuity: a two-link history with a soft reset of the loaded link between routing and the tick *)
+Example C04_fault_model_example :
+  let s := [(true, 0); (true, 0)] in
+  let ops := [FClient (Some 0%nat) false; FClient (Some 0%nat) false; FSoftReset 0%nat; FFlush; FReg3 0%nat;
+              FClient (Some 1%nat) true] in
+  finv s /\ fops_wf s ops /\ map fs_tx (ftrace s ops) = [[0;0];[0;0];[0;0];[0;0];[0;0];[0;1]].
+Proof.
+  cbn zeta. split; [repeat constructor; cbn; congruence|].
+  split; [|vm_compute; reflexivity].
+  cbn. repeat split; eexists; (split; [reflexivity|reflexivity]).
+Qed.
+
+(** ... and the monitor rejects a trace in which the reset link flushes what it had queued *)
+Example C04_fault_monitor_rejects :
+  mon_fault [mkFS 0 [true;true] [0;0] [2;0]; mkFS 2 [true;true] [0;0] [2;0]; mkFS 1 [false;true] [2;0] [0;0]] = 5%N.
+Proof. vm_compute. reflexivity. Qed.
